@@ -35,7 +35,7 @@ def run(rep):
     loops = [s["e"] for s in body.get("stmts", []) if s["k"] == "Expr" and s["e"].get("k") == "For"]
     srcs = [show(l["iter"]) for l in loops]
     rep.check(srcs == ["self.true_positives", "self.true_negatives"], "T-VALIDATE", "T-VALIDATE/loops", v.sp, "exactly two top-level loops over true_positives then true_negatives", str(srcs))
-    errs = [s for s in body.get("stmts", []) if s["k"] == "Let" and s["pat"].get("k") == "Bind" and s["pat"]["name"] == "errors"]
+    errs = [s for s in body.get("stmts", []) if s["k"] == "Let" and s["pat"].get("k") == "Bind" and s["pat"].get("ty") == "std::vec::Vec<std::string::String>"]
     eid = errs[0]["pat"]["id"] if errs else None
     for l, which, negated in zip(loops, ("true_positives", "true_negatives"), (True, False)):
         test_id = l["pat"].get("id") if l["pat"].get("k") == "Bind" else None
